@@ -5,6 +5,9 @@ import os
 
 V = os.path.dirname(os.path.dirname(os.path.abspath(__file__)))
 CHECKS = {
+    'C04': ('reference flow-control model with the stall set over address prefixes compared with the wire at a checkpoint after every step (nested stalls in both orders, repeated notices, unstall without stall, budget interaction); stress variant with sender threads after a processed stall notice (asan+tsan)',
+            'reference model vlib/flow.py; a stall notice counts from the quiescent point after it was fed',
+            'runtime monitoring: reference-model oracle over recorded wire/uplink history + stress under TSan'),
     'C02': ('reference receiver decoder applied to the same corrupted byte stream decides which packets are good; delivered messages (debug-mode queue) must equal them in order, once; four chunkings incl. gaps after escapes; round trip of the sender\'s own output',
             'reference decoder in vlib/model.py; packets <= 255 bytes (longer ones are C12); gcc ASan/UBSan',
             'runtime monitoring: reference-decoder oracle over fed byte streams vs. delivered messages + ASan/UBSan'),
